@@ -335,7 +335,35 @@ pub fn run(ctx: &Ctx) {
     for (x, y) in [("v3", "v3-aws-lc"), ("v4", "v4-sodium")] {
         let bx = bs.iter().find(|b| b.name == x).unwrap();
         let by = bs.iter().find(|b| b.name == y).unwrap();
-        let kps = tok::keypairs(bx, &mut g, 3);
+        let mut kps = tok::keypairs(bx, &mut g, 3);
+        kps.extend(tok::edge_keypairs(bx, &mut g));
+        // small scalars / many seeds: value-dependent serialisation (a coordinate with leading zero bytes, 1 key in 256)
+        // needs hundreds of keys, and the two backends must derive the same public key from each
+        let sweep = if thorough { 3000u32 } else { 700 };
+        for i in 1..=sweep {
+            let sk: Vec<u8> = if bx.ver == "v3" {
+                let mut v = vec![0u8; 48];
+                v[44..].copy_from_slice(&i.to_be_bytes());
+                v
+            } else {
+                let mut seed = [0u8; 32];
+                seed[..4].copy_from_slice(&i.to_le_bytes());
+                let pk = ed25519_dalek::SigningKey::from_bytes(&seed).verifying_key().to_bytes();
+                let mut v = seed.to_vec();
+                v.extend_from_slice(&pk);
+                v
+            };
+            rep.evaluations += 1;
+            let a = (bx.public_of_secret)(&sk);
+            let c = (by.public_of_secret)(&sk);
+            let idp = a.as_ref().ok().map(|pk| ((bx.key_id)("public", pk), (by.key_id)("public", pk), (bx.key_text)("public", pk), (by.key_text)("public", pk)));
+            let ok = a.is_ok() && a == c && matches!(&idp, Some((i1, i2, t1, t2)) if i1.is_ok() && i1 == i2 && t1.is_ok() && t1 == t2);
+            if !ok {
+                rep.violation(&format!("c08.siblings.{x}.sweep"), format!("{x} and {y} disagree on the public key, its text or its id for the secret key number {i} of the sweep: {:?} vs {:?}", a.map(hex::encode), c.map(hex::encode)), json!({"backend": x, "kind": "secret", "bytes": hex::encode(&sk), "what": "siblings"}));
+                break;
+            }
+        }
+        rep.count_n(&format!("siblings.{x}.key-sweep"), sweep as u64);
         for kp in &kps {
             rep.evaluations += 1;
             let a = (bx.public_of_secret)(&kp.sk);
